@@ -51,6 +51,8 @@ Cases == { [Base EXCEPT !.alg = a, !.sans = s] : a \in Algs, s \in Sans }
          \cup { [Base EXCEPT !.cn = "host-like", !.sans = s, !.clientAuth = ca, !.serverAuth = sa] :
                   s \in {<<"same-as-cn">>, <<"same-as-cn", "dns">>, <<"dns", "same-as-cn">>}, ca \in Bool, sa \in Bool }
          \cup { [Base EXCEPT !.alg = a, !.clientAuth = ca, !.serverAuth = sa] : a \in Algs, ca \in Bool, sa \in Bool }
+         (* alternative names that are not ASCII although the low octet of every character is *)
+         \cup { [Base EXCEPT !.sans = s, !.alg = a] : s \in {<<"nonascii-low-octet-1">>, <<"dns", "nonascii-low-octet-2">>, <<"nonascii-low-octet-3", "ip4">>}, a \in {"$default", "ed25519"} }
          \cup { [Base EXCEPT !.country = c, !.names = np, !.dir = d] : c \in {"nonprintable-gt", "nonascii"}, np \in NamePairs, d \in Dirs }
          \cup { [Base EXCEPT !.alg = a, !.sans = <<"nonascii">>, !.dir = d] : a \in Algs, d \in Dirs }
 (* length sweeps: an offending (non-ASCII, two-octet) character after k ASCII letters, so that it sits at and across every *)
